@@ -1,15 +1,15 @@
 (* C11, the "and legal moves" clause: the game obtained by importing the exported text has the same legal moves as the
    game that was exported. Composition of the round trip (TopCore.v: same position, same hash) with the exactness of
    the checked move list (LegalMoves.v: the checked list is, as UCI texts, a permutation of the rules' legal moves of the
-   position). Two hypotheses stay explicit, hence `_partial`:
-     - sane (abs g): the exported position is sane (proved for imports, not yet as an invariant of legal play:
-       "no pawn on a back rank" and the en-passant clause of Rules.sane are not carried by LegalInv);
-     - Fits g': the re-imported game's untruncated list fits the buffer (Fits is stated on the concrete game; that it is
-       a function of abs g is not proved).
-   Both are computable and hold on the examples below. *)
+   position).
+   First part: under the premise sane (abs g) the re-imported game is a legal_reachable game (lr_import).
+   Second part: no sanity premise - the invariant of legal play (LegalInv) is carried over the round trip directly
+   (reimport_legalinv), which is all the move theorems need. The premise left is Fits g' (the re-imported game's
+   untruncated list fits the buffer: Fits is stated on the concrete game; that it is a function of abs g is not
+   proved); without it the inclusion half still holds. All premises are computable and hold on the examples below. *)
 From Coq Require Import Lia List Permutation.
 From Chess Require Import Model.Text Spec.Rules Spec.FenSpec Spec.HashSpec Spec.EvalSpec Spec.Notation.
-From Chess Require Import Proofs.Grid Proofs.Inv Proofs.Abs Proofs.GenOk Proofs.PushPop Proofs.PushPop2 Proofs.Reach
+From Chess Require Import Proofs.FenImport1 Proofs.FenImport2 Proofs.Grid Proofs.Inv Proofs.Abs Proofs.GenOk Proofs.PushPop Proofs.PushPop2 Proofs.Reach
   Proofs.TextProofs Proofs.TextGen Proofs.TopCore Proofs.LegalMoves.
 Import ListNotations.
 Open Scope Z_scope.
@@ -58,6 +58,84 @@ Proof.
   now rewrite Hm0.
 Qed.
 Print Assumptions fen_roundtrip_moves_incl.
+
+(* ---- without the sanity premise: the invariant of legal play itself is carried over the round trip ------------------- *)
+
+Lemma abs_eq_parts g g' :
+  abs g' = abs g ->
+  g_board g' = g_board g /\ g_player g' = g_player g
+  /\ st_wk (gstate_of g') = st_wk (gstate_of g) /\ st_wq (gstate_of g') = st_wq (gstate_of g)
+  /\ st_bk (gstate_of g') = st_bk (gstate_of g) /\ st_bq (gstate_of g') = st_bq (gstate_of g)
+  /\ abs_ep (gstate_of g') = abs_ep (gstate_of g).
+Proof.
+  unfold abs, abs_rights. intros H. injection H as Hb Hp Hwk Hwq Hbk Hbq He. repeat split; assumption.
+Qed.
+
+Theorem reimport_legalinv g g' :
+  legal_reachable g -> import (fen g) = Ok g' ->
+  LegalInv g' /\ abs g' = abs g /\ g_hash g' = g_hash g.
+Proof.
+  intros Hr Hi. destruct (top_fen_roundtrip_legal g Hr) as (g2 & Hi2 & Ha & Hh).
+  rewrite Hi in Hi2. injection Hi2 as <-.
+  split; [|split; [exact Ha | exact Hh]].
+  pose proof (legal_reachable_legalinv g Hr) as HL.
+  pose proof HL as ((HR & HK) & KP & NC). pose proof HR as [_ HRule].
+  destruct (LegalInv_kings g HL) as [KW KB].
+  destruct (import_rule_easy _ g' Hi) as (H1 & _ & _ & H2 & H3 & H4 & H5 & H6).
+  destruct (abs_eq_parts g g' Ha) as (Eb & Ep & Ewk & Ewq & Ebk & Ebq & Eep).
+  (* the cached king squares agree *)
+  assert (EK : forall c, king_pos g' c = king_pos g c).
+  { intros c. symmetry. destruct c; cbn [king_pos].
+    - apply (ri_kings g HRule (g_wking g') White H3). rewrite <- Eb. exact H5.
+    - apply (ri_kings g HRule (g_bking g') Black H4). rewrite <- Eb. exact H6. }
+  assert (EKE : forall c, king_exists g' c = king_exists g c).
+  { intros c. rewrite !king_exists_eq. now rewrite EK, Eb. }
+  assert (HRule' : RuleInv g').
+  { constructor; try assumption.
+    - intros p c Hp Hk. rewrite EK. rewrite Eb in Hk. exact (ri_kings g HRule p c Hp Hk).
+    - intros c Hc. rewrite EKE in Hc. pose proof (ri_castle g HRule c Hc) as HC.
+      rewrite Eb. destruct c; [rewrite Ewk, Ewq | rewrite Ebk, Ebq]; exact HC.
+    - intros Hlt. unfold abs_ep in Eep.
+      replace (st_ep (gstate_of g') <? 8) with true in Eep by (symmetry; now apply Z.ltb_lt).
+      destruct (st_ep (gstate_of g) <? 8) eqn:E; [|discriminate]. injection Eep as Eep.
+      apply Z.ltb_lt in E. rewrite Eb, Ep, Eep. exact (ri_ep g HRule E). }
+  assert (HG' : Good g').
+  { split; [split; [exact (import_cache _ g' Hi) | exact HRule']|]. apply KingsInv_intro; assumption. }
+  split; [exact HG'|]. split.
+  - rewrite EKE, Ep. exact KP.
+  - unfold NotInCheck. rewrite <- (in_check_other g' HG'), Ha, Ep, (in_check_other g (conj HR HK)). exact NC.
+Qed.
+Print Assumptions reimport_legalinv.
+
+(* the "and legal moves" clause with the buffer bounds as the only premises *)
+Theorem fen_roundtrip_moves_fits g g' :
+  legal_reachable g -> Fits g -> import (fen g) = Ok g' -> Fits g' ->
+  Permutation (map uci (checked_moves g')) (map uci (checked_moves g)).
+Proof.
+  intros Hr HF Hi HF'. destruct (reimport_legalinv g g' Hr Hi) as (HL' & Ha & _).
+  pose proof (C01_checked_exact g (legal_reachable_legalinv g Hr) HF) as P.
+  pose proof (C01_checked_exact g' HL' HF') as P'.
+  rewrite Ha in P'. exact (Permutation_trans P' (Permutation_sym P)).
+Qed.
+Print Assumptions fen_roundtrip_moves_fits.
+
+(* and the inclusion half with the bound on the exported game only *)
+Theorem fen_roundtrip_moves_incl_fits g g' :
+  legal_reachable g -> Fits g -> import (fen g) = Ok g' ->
+  incl (map uci (checked_moves g')) (map uci (checked_moves g)) /\ NoDup (map uci (checked_moves g')).
+Proof.
+  intros Hr HF Hi. destruct (reimport_legalinv g g' Hr Hi) as (HL' & Ha & _).
+  pose proof (legal_reachable_legalinv g Hr) as HL.
+  split; [|now apply C01_checked_nodup].
+  intros x Hx. apply in_map_iff in Hx. destruct Hx as (m & <- & Hin).
+  pose proof (checked_sound g' m HL' Hin) as Hl. rewrite Ha in Hl.
+  destruct (checked_complete g (abs_move m) HL HF Hl) as (m0 & Hin0 & Hm0).
+  apply in_map_iff. exists m0. split; [|exact Hin0].
+  rewrite (generated_uci_is_standard g true m0 (LegalInv_repinv g HL) Hin0).
+  rewrite (generated_uci_is_standard g' true m (LegalInv_repinv g' HL') Hin).
+  now rewrite Hm0.
+Qed.
+Print Assumptions fen_roundtrip_moves_incl_fits.
 
 (* the exported text always re-imports (no hypothesis beyond legal play), so the theorem's import premise is met *)
 Lemma fen_reimports g : legal_reachable g -> exists g', import (fen g) = Ok g'.
